@@ -265,6 +265,12 @@ func (run *Run) Finish(ff *FindingsFile, floors []Floor) int {
 	for k, v := range run.Extra {
 		cov[k] = v
 	}
+	if run.Assumptions == nil {
+		run.Assumptions = []string{}
+	}
+	if run.TrustedBase == nil {
+		run.TrustedBase = []string{}
+	}
 	ev := map[string]interface{}{
 		"property_id": run.Property,
 		"tier":        run.Tier,
